@@ -7,6 +7,8 @@
     * every loop and the recursion readType ↔ readStructType runs on fuel that `New` computes from the length of
       the input (`len + 1` per scanning loop, `len + 2` for the member loop, `4·len + 8` per type) and yields
       the explicit outcome `.outOfFuel` when exhausted ("never hangs": the number of steps is linear in `len`).
+  (`peek`, the look-ahead of `readError`, indexes only below `len(input)` by its loop condition and is modelled by
+  structural recursion over the remaining input: it has neither outcome.)
   `New_total` shows that neither outcome is ever produced. The proof (VarlinkProofs/Lemmas/IdlTotal.lean) carries
   the invariant `rest.length + pos = len ∧ lineStart ≤ pos` to every reader entry and uses the remaining input
   as the measure for the fuel. Stack depth is not modelled (Go grows stacks dynamically); the 64 KiB bound of the
@@ -67,6 +69,13 @@ theorem New_comment_at_eof : (New (str "interface a.b\nmethod # x")).tag = 1 := 
 theorem New_interface_comment : (New (str "interface # c")).tag = 1 := by decide +kernel
 /-- a comment without newline behind a complete description is accepted -/
 theorem New_final_comment : (New (str "interface a.b\nmethod F()->()#")).tag = 0 := by decide +kernel
+
+/-- the look-ahead of `readError` at the end of the input: right behind the name, inside a comment, behind `#` -/
+theorem New_error_name_at_eof : (New (str "interface a.b\nmethod F()->()\nerror E")).tag = 0 ∧
+    (New (str "interface a.b\nmethod F()->()\nerror E # c")).tag = 0 ∧
+    (New (str "interface a.b\nmethod F()->()\nerror E\n#")).tag = 0 ∧
+    (New (str "interface a.b\nmethod F()->()\nerror E\n(")).tag = 1 := by
+  refine ⟨?_, ?_, ?_, ?_⟩ <;> decide +kernel
 
 /-! ### non-vacuity: both outcomes occur -/
 example : ∃ t, New (str "interface a.b\nmethod F(a: ?[]int) -> ()") = .ok t := by
